@@ -389,14 +389,27 @@ pub fn check(scn: &C11Scenario, stats: &mut RunStats) -> Result<Vec<Violation>, 
 
     // --- reference: the bad files are absent, no injected faults, canonical order
     let bad_files = all_bad_files(scn);
+    // ... and no stale outputs: files that already sit at a destination are dropped, so
+    // the reference also shows what a run into a clean location writes
+    let stale: Vec<&String> = if with_output {
+        lay.mirror.values().collect()
+    } else {
+        Vec::new()
+    };
     let ref_entries: Vec<FsEntry> = scn
         .entries
         .iter()
         .filter(|e| !bad_files.contains(&e.path))
+        .filter(|e| !(matches!(e.body, Body::Text(_) | Body::Hex(_)) && stale.contains(&&e.path)))
         .cloned()
         .collect();
     let mut ref_scn = scn.clone();
     ref_scn.opts.fail_fast = false;
+    if !with_output {
+        // an in-place run is compared with a run of the same sources into a separate
+        // location: the bytes generated for a file do not depend on where they go
+        ref_scn.opts.output = Some("zz_ref_out".to_owned());
+    }
     let r = execute(&ref_scn, ref_entries.clone(), Vec::new(), 0, 0, false)?;
     stats.executions += 1;
 
@@ -462,7 +475,7 @@ pub fn check(scn: &C11Scenario, stats: &mut RunStats) -> Result<Vec<Violation>, 
     };
 
     // --- the faulty set F
-    let ref_lay = layout(scn, &ref_entries);
+    let ref_lay = layout(&ref_scn, &ref_entries);
     let mut faulty: BTreeSet<String> = BTreeSet::new();
     for bad in &bad_files {
         if lay.expected.contains(bad) {
@@ -629,7 +642,10 @@ pub fn check(scn: &C11Scenario, stats: &mut RunStats) -> Result<Vec<Violation>, 
     for source in &healthy {
         let m = &lay.mirror[*source];
         let got = a.after.get(m);
-        let want = r.after.get(m);
+        let want = match ref_lay.mirror.get(*source) {
+            Some(rm) => r.after.get(rm),
+            None => None,
+        };
         match (got, want) {
             (None, _) | (Some(None), _) => {
                 if scn.opts.fail_fast && !effective.is_empty() {
@@ -644,9 +660,9 @@ pub fn check(scn: &C11Scenario, stats: &mut RunStats) -> Result<Vec<Violation>, 
                 }
             }
             (Some(got), Some(want)) => {
-                let untouched = with_output == false && a.before.get(m) == Some(got);
+                let untouched = a.before.get(m) == Some(got);
                 if scn.opts.fail_fast && !effective.is_empty() && untouched {
-                    // in place and not reached before the stop
+                    // not reached before the stop: whatever was there is still there
                 } else if got != want {
                     violations.push(Violation::new(
                         P,
@@ -1216,6 +1232,18 @@ pub fn generate(seed: u64) -> C11Scenario {
                 if p != out_norm && p.starts_with(&format!("{}/", out_norm)) && blocked_is_free {
                     set_entry(&mut entries, &p, e.body.clone());
                 }
+            }
+        }
+    }
+    // stale outputs: something (longer than any output) already sits at some destinations
+    if scn.opts.output.is_some() && rk.chance(1, 3) {
+        let junk = format!(
+            "-- stale output from an earlier run\n{}return 'stale'\n",
+            "local filler = 'xxxxxxxxxxxxxxxxxxxxxxxxxxxxxxxxxxxxxxxxxxxxxxxxxxxxxxxxxxxxxxxx'\n".repeat(40)
+        );
+        for (i, m) in lay.mirror.values().enumerate() {
+            if (i + rk.below(2)) % 2 == 0 && !entries.iter().any(|e| e.path == *m) {
+                set_entry(&mut entries, m, Body::Text(junk.clone()));
             }
         }
     }
